@@ -122,7 +122,7 @@ func (s *session) setup(name string) *hx.Failure {
 	case "susp-top":
 		return run("break flat:5", "start flat")
 	case "susp-nested":
-		return run("break nest:2", "start nest")
+		return run("break nest:5", "start nest")
 	case "err-top":
 		return run("start err")
 	case "err-nested":
@@ -130,9 +130,9 @@ func (s *session) setup(name string) *hx.Failure {
 	case "finished-stale":
 		return run("start err", "cont resume", "cont resume", "cont resume")
 	case "stopped":
-		return run("break nest:2", "start nest", "stop")
+		return run("break nest:5", "start nest", "stop")
 	case "mixed":
-		return run("break nest:2", "start nest", "start hold")
+		return run("break nest:5", "start nest", "start hold")
 	}
 	return hx.Failf("setup-error", "unknown setup %q", name)
 }
@@ -168,7 +168,9 @@ var (
 	exDst   = []tok{{"x", "lit.x"}, {"a", "lit.a"}, {"1x", "id.invalid"}}
 	injVars = []tok{{"z", "lit.z"}, {"a", "lit.a"}, {"x", "lit.x"}, {"_x", "lit._x"}, {"c.0", "lit.c.0"}, {"c.9", "id.dotted-oob"}, {"c.-5", "id.dotted-neg"}, {"a.b", "id.dotted-noncontainer"}, {"d.y.0", "id.dotted-deep"}}
 	exprs   = []tok{{"1+1", "expr.ok"}, {"\"a\"", "expr.string"}, {"1+\"a\"", "expr.illtyped"}, {"1+", "expr.syntax"}, {"a", "lit.a"},
-		{"nosuch", "lit.nosuch"}, {"[1,{2:3}]", "expr.container"}, {"len([1])", "expr.call"}, {")", "expr.garbage"}}
+		{"nosuch", "lit.nosuch"}, {"[1,{2:3}]", "expr.container"}, {"len([1])", "expr.call"}, {")", "expr.garbage"},
+		// calls of functions DEFINED BY THE DEBUGGED PROGRAM (their body nodes consult the debugger while the command runs)
+		{"plain(3)", "expr.progcall"}, {"plain(plain(1))", "expr.progcall-nested"}, {"fn(3)", "expr.progcall-maybe-undefined"}}
 	exprTail = []tok{{"+", "expr.tail-op"}, {"; 2", "expr.tail-stmt"}}
 	extras   = []tok{{"x", "lit.x"}, {"1", "lit.1"}}
 )
